@@ -107,11 +107,41 @@ def _conjuncts(e):
     return [e]
 
 
-def tpl_facts(c):
+def expand_predicate(prog, e, depth=0):
+    """a call of a crate predicate whose whole body is one boolean expression stands for that
+    expression (`tpl_is_instrumentable(tpl)` for `!tpl.exprs.is_empty() && ..`); negations are kept"""
+    if prog is None or depth > 3:
+        return e
+    e0 = hir.peel(e)
+    if e0.get("k") == "Unary" and e0.get("op") == "Not":
+        inner = expand_predicate(prog, e0["x"], depth)
+        if inner is not hir.peel(e0["x"]) and inner is not e0["x"]:
+            return {"k": "Unary", "op": "Not", "x": inner, "id": e0.get("id"), "sp": e0.get("sp"), "ty": "bool"}
+        return e
+    if hir.is_call(e0):
+        h = prog.resolve_local(e0)
+        if h is not None and h.body is not None and (h.rec.get("ret") or "") == "bool":
+            from .prov import return_exprs
+
+            rs = return_exprs(h.body)
+            if len(rs) == 1 and not any(x.get("k") in ("Ret", "Loop", "Match") for x in hir.walk(h.body)):
+                return expand_predicate(prog, rs[0], depth + 1)
+    return e
+
+
+def tpl_facts(c, prog=None):
     """Facts a boolean condition establishes about a template literal's substitutions:
     ("all", [(pred, value)..]) - all hold; ("any", [...]) - at least one holds; None - unrelated."""
     if c.get("t") != "bool":
         return None
+    e = expand_predicate(prog, c["e"])
+    v = c["v"]
+    e1 = hir.peel(e)
+    while e1.get("k") == "Unary" and e1.get("op") == "Not" and len(_conjuncts(e1["x"])) > 1:
+        # !(a && b): the negation of a conjunction
+        e, v = e1["x"], not v
+        e1 = hir.peel(e)
+    c = dict(c, e=e, v=v)
     kinds = [_tpl_conj_kind(x) for x in _conjuncts(c["e"])]
     if not kinds or any(k is None for k in kinds):
         return None
@@ -130,7 +160,7 @@ def excl_tpl_literal(tr, path, missing):
         return None
     not_instrumentable = {("is_empty", True), ("all_non_lit", False)}
     for c in path.conds:
-        tf = tpl_facts(c)
+        tf = tpl_facts(c, tr.prog)
         if tf is None:
             continue
         if tf[0] == "all" and any(x in not_instrumentable for x in tf[1]):
